@@ -20,7 +20,7 @@ RULE = ('Hypothesis-generated resource trees (<= 20 nodes, depth <= 4, handles /
         'mirror check must pass again afterwards. '
         'One node kind registers an already registered handle object under a second name, in the same map or in another one (an alias): every name denotes it, in the map and in the snapshot. In ~13% of the cases the root level gets 40-260 further handles (the first and the last of them shadowing an older one). '
         ''
-        'Before the mutation attempts every resource is unloaded: a rejected mutation must not load anything. '
+        'After the source map was changed (names changing kind, composite-key insertions below existing sub-maps, clear) a SECOND snapshot is taken and must mirror the map as it is then. Before the mutation attempts every resource is unloaded: a rejected mutation must not load anything. '
         'Non-trivial = identifier and non-identifier names side by '
         'side in one map, depth >= 2, and a layered handle or an underscore-prefixed identifier. Distinct = sha1 '
         'of canonical JSON.')
@@ -290,6 +290,13 @@ def run_case(case):
         for path, (kind, obj) in before.items():
             if after[path] is not obj:
                 viol('snapshot_changed_when_the_source_map_was_mutated', path=path, kind=kind)
+        # ... and a snapshot taken NOW mirrors the map as it is now (every level of it)
+        try:
+            snap2 = root.get_static_map()
+        except Exception as exc:
+            viol('get_static_map_raised', exception=repr(exc), when='second snapshot, after the map was changed')
+        mirror(snap2, root, [], collections.Counter())
+        facts['second_snapshot_after_the_map_changed'] += 1
     nontrivial = (facts['mixed_names_in_one_map'] and facts['max_depth'] >= 1
                   and (facts['layered_handle'] or facts['underscore_identifier']))
     return {'nontrivial': bool(nontrivial), 'classes': sorted(k for k, v in facts.items() if v and k != 'mutation_attempts'),
